@@ -1206,6 +1206,46 @@ for c in cases[:3] + cases[-2:]:
     samples.append(dict(kind=c["kind"], klass=c["klass"], capture=c["mode"], grid_shape=c["gshape"], numelements=c["nel"],
                         ns=c["ns"], view=c.get("viewname"), image=c["runs"][0]["impl"][:4]))
 
+# (I7) IMAGE-SIZED grids (more than 2^19 pixels, a count that is not a multiple of a power of two): the value of a pixel does
+#      not depend on how many other pixels are imaged with it -- the whole image against the same pixels imaged a few at a time
+#      (the last ones in storage order, the first ones, random ones), FMC and HMC, and a unit-spike scatterer on the LAST node
+for big_i in range(1 if Q else 3):
+    nel_ = 4
+    nx_, nz_ = [(1000, 600), (733, 901), (2049, 513)][big_i]
+    xs_ = (np.arange(nel_) - (nel_ - 1) / 2) * 0.7e-3
+    probe_ = arim.Probe(arim.Points(np.column_stack([xs_, np.zeros(nel_), np.zeros(nel_)]), "Probe"), 5e6)
+    gx_, gz_ = np.meshgrid(np.linspace(-8e-3, 8e-3, nx_), np.linspace(6e-3, 18e-3, nz_), indexing="ij")
+    gcoords_ = np.stack([gx_, np.zeros_like(gx_), gz_], axis=-1)
+    grid_ = arim.Points(gcoords_, "Grid")
+    vel_ = 6300.0
+    time_ = arim.Time(0.0, 1 / 40e6, 400)
+    node_ = gcoords_[-1, -1]
+    flat_ = gcoords_.reshape(-1, 3)
+    pick_ = np.unique(np.concatenate([np.arange(0, 50), rng.integers(0, len(flat_), 200), np.arange(len(flat_) - 3000, len(flat_))]))
+    sub_grid_ = arim.Points(np.ascontiguousarray(flat_[pick_]), "Grid")
+    for capture_ in ("fmc", "hmc"):
+        tx_, rx_ = (arim.ut.fmc if capture_ == "fmc" else arim.ut.hmc)(nel_)
+        tau_ = np.linalg.norm(node_[None, :] - probe_.locations.coords, axis=1) / vel_
+        data_ = np.zeros((len(tx_), len(time_)))
+        for k_, (a_, b_) in enumerate(zip(tx_, rx_)):
+            data_[k_, int(round((tau_[a_] + tau_[b_]) / time_.step))] = 1.0
+        data_ = data_ + 0.01 * rng.standard_normal(data_.shape)
+        frame_ = arim.Frame(data_, time_, tx_, rx_, probe_, None)
+        img_ = np.asarray(tfm.contact_tfm(frame_, grid_, vel_).res)
+        sub_ = np.asarray(tfm.contact_tfm(frame_, sub_grid_, vel_).res)
+        stats["identity_checks"] += 1
+        evaluations += 1
+        chk.count(identity="image_sized_grid", pixels=nx_ * nz_, capture=capture_)
+        bad_ = img_.shape != (nx_, nz_) or not np.allclose(img_.reshape(-1)[pick_], sub_, rtol=0, atol=1e-12 * float(np.max(np.abs(sub_))))
+        if bad_:
+            wrong_ = pick_[np.flatnonzero(~np.isclose(img_.reshape(-1)[pick_], sub_, rtol=0, atol=1e-12 * float(np.max(np.abs(sub_)))))] if img_.shape == (nx_, nz_) else pick_[:0]
+            chk.violation("I7:image-sized-grid", f"contact_tfm on a grid of {nx_} x {nz_} pixels ({capture_.upper()}) differs from the image of the same pixels taken a few at a time",
+                          dict(grid_shape=[nx_, nz_], capture=capture_, numelements=nel_, velocity=vel_, time=[0.0, 1 / 40e6, 400], image_shape=list(img_.shape),
+                               first_wrong_pixels_flat_index=wrong_[:10], values_in_full_image=img_.reshape(-1)[wrong_[:10]] if len(wrong_) else None,
+                               values_imaged_apart=sub_[np.searchsorted(pick_, wrong_[:10])] if len(wrong_) else None,
+                               data="unit spikes at the arrival times of the last grid node + 0.01 * rng.standard_normal (seed and tier)"), failing_input_found=True)
+            break
+
 chk.finish(
     evaluations=evaluations,
     distinct_nontrivial=len(nontrivial),
